@@ -245,7 +245,7 @@ func c43() {
 									wantErr = ea
 								}
 							}
-							if nb+na == 1 && err != wantErr {
+							if nb+na == 1 && (na == 1) == wantAfter && err != wantErr {
 								run.Violation("C43:WithActivation:"+cls+":branch-result-not-returned", desc+fmt.Sprintf(": returned %v, the branch returned %v", err, wantErr), replay)
 							}
 						}
